@@ -44,6 +44,28 @@ CHECKS = {
             'Trusted: long double reference formulas in the harness. Round trip/monotonicity/accuracy vs the canonical formula are judged inside the documented domain '
             '|lat| <= MERCATOR_MAX_LAT; tile clauses for every valid location incl. poles.',
             'DESIGN.md section 2 C18'),
+    'C09': ('fault_enumeration', 'reference-decompressor oracle (Python gzip/bz2 at generation time) over an enumerated corpus of multi-stream, truncated and corrupted files (ASan/UBSan builds, three input buffer sizes)',
+            'Every file of a generated corpus (1..6 concatenated streams incl. empty/tiny streams and stream boundaries aligned to libbz2/zlib read sizes; every '
+            'truncation length and single-byte corruption of small files, sampled ones for larger files) goes through the fd and the buffer decompressor created via '
+            'CompressionFactory under input buffer sizes default/4096/100: output must equal the reference payload, offset <= file size, damaged files must not be '
+            'accepted as a shorter payload; the library compressors\' output is re-read by the library and by Python; multi-stream OPL files go through the full Reader.',
+            'Trusted: Python gzip/bz2. Not judged: bytes of a following stream shorter than / corrupted inside its magic number (all compression libraries treat that as '
+            'ignorable trailing garbage), empty files, damaged files that decode completely or to something that is not a prefix.',
+            'DESIGN.md section 2 C09'),
+    'C11': ('exploration', 'set-based reference model of the two-pass history, judged online inside the manager callbacks (ASan/UBSan build, GC hook counter)',
+            'Seeded relation sets with overlapping/duplicate/missing/nested references and seeded interest predicates are fed through all 8 type-switch instantiations '
+            'of RelationsManager (plus 3 without order check) and the MultipolygonManager: completion exactly once at the arrival of the last wanted member, members '
+            'byte-identical inside the callback, availability until the last needing relation completed and nullptr afterwards, *_not_in_any_relation and incomplete '
+            'listing exact, output delivered once in order; large histories force ItemStash garbage collection (hook counter required > 0).',
+            'Trusted: the model in harness/c11_relations.cpp. Not judged: relations of interest without wanted members, order of several completions at the same object.',
+            'DESIGN.md section 2 C11'),
+    'C19': ('exploration', 'offline checker over client-boundary push/pop/task histories under seeded schedule perturbation (TSan and ASan builds)',
+            'Histories with 1..8 producers x 1..8 consumers x bounds {0,1,2,3,10}: every pop logged with call/return ticks of a logical clock; multiset equality '
+            '(no loss/duplicate), real-time FIFO per producer, size bound observed under the queue\'s own lock (hook), producer blocks at the bound, every consumer '
+            'wakes on shutdown; pools of 1..32 workers: every task exactly once, value/exception arrives in the future, destruction with queued work runs it and '
+            'joins the workers. Each history runs under seeded yields/sleeps at the hook points; the number of distinct interleaving signatures is reported.',
+            'Liveness is decided as bounded progress (in-harness watchdog + driver stall oracle). Held on the interleavings actually produced.',
+            'DESIGN.md section 2 C19'),
 }
 
 NOT_YET = 'check not built yet (work in progress, see DESIGN.md section 6)'
